@@ -634,7 +634,9 @@ def single_case(case):
             a = call(i, s, g)
             check_after(name, a, viol, f'solo {name}@gv{g}', g)
             ca = dig(a)
-            cb = dig(call(i, s, g))
+            b = call(i, s, g)
+            cb = dig(b)
+            check_after(name, b, viol, f'solo {name}@gv{g} (second call)', g)
             if ca != cb:
                 viol.append((f'nondeterminism:{name}', f'{name}@gv{g}: two calls after np.random.seed({s}) differ'))
             if ca != table[(i, g, s)]:
